@@ -658,7 +658,16 @@ def emit_item(unit, loc, opts):
     text = src[start:it.end]
     if it.kind == 'macro_call':
         text = expand_macro(unit, it, src, rel)
-    if it.kind != 'macro_call':
+    if it.kind == 'mod':
+        # a module of constants: visibility is normalised to `pub` instead of dropped (the items
+        # must stay reachable from outside the module)
+        sv = set(unit.rules)
+        unit.rules.discard('R2')
+        text = unit.rewrite(text, '%s :: %s' % (rel, ' :: '.join(path)), is_struct=True)
+        unit.rules = sv
+        text = re.sub(r'\bpub\s*\(\s*(?:super|crate|self|in\s+[\w:]+)\s*\)', 'pub', text)
+        unit.rule_log.append({'rule': 'R2', 'before': 'pub(..) inside mod ' + it.name, 'after': 'pub', 'where': rel})
+    elif it.kind != 'macro_call':
         text = unit.rewrite(text, '%s :: %s' % (rel, ' :: '.join(path)), is_struct=(it.kind in ('struct', 'enum')))
     if opts.get('ghosts'):
         k = text.rstrip().rfind('}')
@@ -732,8 +741,15 @@ def expand_macro(unit, it, src, rel):
             out.append('        %s::%s => %s,' % (ename, v, val))
         out.append('    }')
         out.append('}')
+        out.append('impl core::convert::From<%s> for u8 {' % ename)
+        out.append('    fn from(v: %s) -> (r: u8) ensures r == %s_spec_to_u8(v) { %s_to_u8(v) }' % (ename, ename, ename))
+        out.append('}')
+        out.append('impl vstd::std_specs::convert::FromSpecImpl<%s> for u8 {' % ename)
+        out.append('    open spec fn obeys_from_spec() -> bool { true }')
+        out.append('    open spec fn from_spec(v: %s) -> Self { %s_spec_to_u8(v) }' % (ename, ename))
+        out.append('}')
         unit.rule_log.append({'rule': 'R7', 'before': 'prim_enum! { pub enum %s .. }' % ename,
-                              'after': 'enum + TryFrom<u8> + to_u8 (%d variants)' % len(pairs),
+                              'after': 'enum + TryFrom<u8> + From<enum> for u8 (match instead of transmute; repr(u8) discriminants) (%d variants)' % len(pairs),
                               'where': rel})
         return '\n'.join(out)
     if name == 'bitflags':
@@ -827,6 +843,7 @@ def emit_fn(unit, loc, dlines, tmpl_where):
     # ---- parse directive body
     props = list(unit.unit_props)
     ret = None
+    vis = None
     selfmut = False
     trusted = False
     attrs = []
@@ -848,6 +865,8 @@ def emit_fn(unit, loc, dlines, tmpl_where):
             props = s.split()[1].split(',')
         elif head == 'ret':
             ret = s.split()[1]
+        elif head == 'vis':
+            vis = s.split(None, 1)[1]
         elif head == 'selfmut':
             selfmut = True
         elif head == 'trusted':
@@ -871,8 +890,11 @@ def emit_fn(unit, loc, dlines, tmpl_where):
             if rest:
                 cur[2].append('    ' + rest)
         elif head == 'loop':
-            cur = ['loop', int(s.split()[1]), []]
+            parts = s.split()
+            cur = ['loop', int(parts[1]), []]
             sections.append(cur)
+            if len(parts) >= 4 and parts[2] == 'iter':
+                sections.append(['loopiter', (int(parts[1]), parts[3]), []])
         elif head in ('atend', 'atstart'):
             cur = [head, None, []]
             sections.append(cur)
@@ -887,6 +909,14 @@ def emit_fn(unit, loc, dlines, tmpl_where):
 
     # ---- rewrite
     ctx = '%s :: %s' % (rel, ' :: '.join(path))
+    if trusted:
+        # body is not given to the verifier at all (unsafe / cfg / intrinsics): keep the signature only
+        se, hb = _find_fn_parts(text)
+        if hb:
+            nl = text[se:].count('\n')
+            text = text[:se] + '{ unimplemented!() }' + '\n' * nl
+        a0 = re.match(r'(\s*#\s*\[[^\]]*\]\s*|\s*///[^\n]*\n)*', text).end()
+        text = _blank(text[:a0]) + text[a0:]
     text = unit.rewrite(text, ctx)
     for sec in sections:
         if sec[0] == 'desugar_q':
@@ -916,6 +946,9 @@ def emit_fn(unit, loc, dlines, tmpl_where):
             log.append(('SIG', a, b))
     if ret:
         sig = _name_return(sig, ret)
+    if vis:
+        mm = re.search(r'\b(const\s+|unsafe\s+|async\s+)*fn\b', sig)
+        sig = sig[:mm.start()] + vis + ' ' + sig[mm.start():]
     for r in log:
         unit.rule_log.append({'rule': r[0], 'before': r[1], 'after': r[2], 'where': ctx})
 
@@ -976,6 +1009,14 @@ def emit_fn(unit, loc, dlines, tmpl_where):
             inserts.append((1, 'hint', sec[2], 'start'))
         elif kind == 'atend':
             inserts.append((len(body.rstrip()) - 1, 'hint', sec[2], 'end'))
+    for sec in sections:
+        if sec[0] == 'loopiter':
+            # Verus syntax for naming the ghost iterator of a for loop: `for x in it: expr`
+            kw = loops[sec[1][0]][0]
+            mm = re.compile(r'\bin\s').search(body, kw)
+            if not mm or mm.start() > loops[sec[1][0]][1]:
+                raise AnchorLost('%s: for-loop header not found for iter name' % fn_id)
+            inserts.append((mm.end(), 'tmplraw', ['%s: ' % sec[1][1]], 'iter'))
     inserts.sort(key=lambda t: t[0])
     pos = 0
     if unit.probe and not trusted:
@@ -984,6 +1025,10 @@ def emit_fn(unit, loc, dlines, tmpl_where):
         pos = 1
     for off, section, lines_, key in inserts:
         unit.emit(body[pos:off], repo_origin(sig_end + pos))
+        if section == 'tmplraw':
+            unit.emit(lines_[0], {'k': 'tmpl', 'line': 0, 'file': tmpl_where})
+            pos = off
+            continue
         unit.emit('\n', {'k': 'tmpl', 'line': 0, 'file': tmpl_where})
         emit_clause_lines(section, lines_, key)
         pos = off
